@@ -316,7 +316,7 @@ def samples_from(events, n=3):
 
 REQUIRED_ANTS = {
     "C01": ["RoundTrip"], "C02": ["Released"], "C03": ["Distinct", "FalseAcceptProbe", "NoFalseAccept"], "C04": ["UninitDependence"],
-    "C05": ["FailClosed", "FailClosedStaleErrno", "ShortSizes", "KdfParams"], "C06": ["Shape"], "C07": ["Result", "ResultNonzeroErrno", "UninitDependence"],
+    "C05": ["FailClosed", "FailClosedStaleErrno", "ShortSizes", "KdfParams"], "C06": ["Shape"], "C07": ["Result", "ResultNonzeroErrno", "UninitDependence", "SameOutcome"],
     "C08": ["AsIfAlone"], "C09": ["Wiped"], "C14": ["Handle", "Grow"], "C15": ["Balanced"], "C20": ["Result", "FailClosed"],
     "C19": ["Result", "Released", "UninitDependence", "FailClosed"],
 }
@@ -474,6 +474,14 @@ def c07(ctx):
     events = ctx.run_xcv(concretize(ctx, behs, cfgev["E"]))
     cmds = ["reset", "obj 1 5 2", "hset 0 0 0", "hset 1 0 0"]
     nreq = 0
+    cmds.append("obj 0 0 0")
+    # a refused setting asked for twice in a row after each method's successful call (a method lookup remembered between calls)
+    for m in cfgev["E"]:
+        for u in ("$9$bad", "$zz$" + gen.salt(rng, 8), "$sha2$abc", "$", "$$", "*0", "$2c$04$" + gen.salt(rng, 22, gen.BF64), "$7x" + gen.salt(rng, 20),
+                  "$Y$j65$" + gen.salt(rng, 8), "\x7fab"):
+            cmds.append("crypt_rn 0 %s %s 32768" % (hx(b"first"), hx(cheap_setting(m, rng))))
+            for fnc in rng.sample(("crypt_rn 0 %s %s 32768", "crypt_r 0 %s %s", "crypt - %s %s", "crypt_ra 1 %s %s", "crypt_rn 1 %s %s 32768"), 3):
+                cmds.append(fnc % (hx(b"pw"), hx(u.encode("latin-1"))))
     for m in cfgev["E"]:
         for s in [cheap_setting(m, rng) for rep in range(1 if quick else 3)] + gen.zero_settings(m, rng):
             for ph in (gen.rand_phrase(rng, rng.choice((1, 7))), gen.rand_phrase(rng, rng.choice((9, 20, 80))),
@@ -1881,7 +1889,13 @@ def c02_scripts(ctx, E, quick):
     evs = [e for e in ctx.run_xcv(cmds) if e.get("e") in ("crypt_rn", "Fault")]
     calls = [e for e in evs if e.get("e") == "crypt_rn"]
     if len(calls) != len(allreq):
-        raise Broken("script pass lost calls")
+        faults = [e for e in evs if e.get("e") == "Fault"]
+        if len(calls) + len(faults) != len(allreq) or not faults:
+            raise Broken("script pass lost calls")
+        # a request of the pass never returned: the published algorithm yields a value for it
+        for e in faults:
+            ctx.violation("C04", "Fault: a request of the script pass never returned", compact(e))
+        return [], 0
     chunks = {}
     for e in calls:
         e["yprev"] = 0
@@ -2152,6 +2166,18 @@ def c17(ctx):
                                           "01e001e001f101f1", "e001e001f101f101", "1ffe1ffe0efe0efe", "fe1ffe1ffe0efe0e", "011f011f010e010e", "1f011f010e010e01",
                                           "e0fee0fef1fef1fe", "fee0fee0fef1fef1")]
     nspecial = len(special)
+    # an object re-keyed with the SAME key after something else used or overwrote it (a hashing call through the same
+    # object, the caller recycling the memory): setkey_r must build the schedule again, whatever it did last time
+    for o in (0, 1):
+        for wipe in ("crypt_r %d %s %s" % (o, hx(b"pw"), hx("$1$abc")), "crypt_rn %d %s %s 32768" % (o, hx(b"pw"), hx("ab")),
+                     "crypt_r %d %s %s" % (o, hx(b"pw"), hx("*0")), "scribble %d all %d" % (o, rng.randrange(1, 60)),
+                     "xcrypt_r %d %s %s" % (o, hx(b"pw"), hx("_/...abcd"))):
+            k = rb(8)
+            x += ["setkey_r %d %s 0" % (o, k.hex()), "encrypt_r %d %s 0 0" % (o, rb(8).hex()), wipe,
+                  "setkey_r %d %s 0" % (o, k.hex()), "encrypt_r %d %s 0 0" % (o, rb(8).hex()), "encrypt_r %d %s 1 0" % (o, rb(8).hex())]
+    for k in (rb(8), bytes(8)):
+        x += ["setkey - %s 0" % k.hex(), "encrypt - %s 0 0" % rb(8).hex(), "crypt - %s %s" % (hx(b"pw"), hx("ab")), "setkey - %s 0" % k.hex(),
+              "encrypt - %s 0 0" % rb(8).hex(), "setkey_r 0 %s 0" % k.hex(), "setkey - %s 0" % k.hex(), "encrypt_r 0 %s 0 0" % rb(8).hex(), "encrypt - %s 1 0" % rb(8).hex()]
     for i in range((120 if quick else 1500) + nspecial):
         k, b = (special[i] if i < nspecial else rb(8)), rb(8)
         noise = rng.choice((0, 0, 3, 17))
@@ -2531,7 +2557,7 @@ def c08(ctx):
             reqs.append((rng.choice(("crypt_r", "crypt_rn", "crypt_ra")), gen.rand_phrase(rng, n, eightbit=False), cheap_setting(m, rng)))
     base = ctx.run_xcv(["obj 0 0 0"] + ["crypt_rn 0 %s %s 32768" % (hx(ph), hx(s)) for (_, ph, s) in reqs])
     pad = next(dict(e) for e in base if e.get("e") == "crypt_rn")
-    for k in ("kprev", "hprev", "dprev", "bprev"):
+    for k in ("kprev", "oprev", "hprev", "dprev", "bprev"):
         pad.pop(k, None)
     mtexe = ctx.build_tool("hooks", "mt.c", "mt")
     script = "".join("%s %s %s\n" % (fn, ph.hex() or "=", s.encode("latin-1").hex() or "=") for (fn, ph, s) in reqs)
